@@ -99,6 +99,45 @@ pub struct Exec<T> {
     pub input_changed: Option<String>,
     /// Heap allocations made while the library routine ran (0 when it panicked: the payload allocates).
     pub allocs: u64,
+    /// The call returned with other floating-point *control* bits than it was entered with (x86-64 MXCSR: rounding
+    /// mode, flush-to-zero, denormals-are-zero, exception masks; the sticky status flags are not compared):
+    /// `(before, after)`. The state is put back before `exec` returns, so that later cases are not perturbed.
+    pub fp_env: Option<(u32, u32)>,
+}
+
+/// MXCSR without the six sticky exception flags (which ordinary arithmetic sets)
+#[cfg(target_arch = "x86_64")]
+pub fn fp_control() -> u32 {
+    let mut v = 0u32;
+    unsafe {
+        std::arch::asm!("stmxcsr [{}]", in(reg) std::ptr::addr_of_mut!(v), options(nostack));
+    }
+    v & 0xFFC0
+}
+#[cfg(target_arch = "x86_64")]
+pub fn set_fp_control(ctl: u32) {
+    let mut cur = 0u32;
+    unsafe {
+        std::arch::asm!("stmxcsr [{}]", in(reg) std::ptr::addr_of_mut!(cur), options(nostack));
+        let new = (cur & 0x3F) | (ctl & 0xFFC0);
+        std::arch::asm!("ldmxcsr [{}]", in(reg) std::ptr::addr_of!(new), options(nostack, readonly));
+    }
+}
+#[cfg(not(target_arch = "x86_64"))]
+pub fn fp_control() -> u32 {
+    0
+}
+#[cfg(not(target_arch = "x86_64"))]
+pub fn set_fp_control(_ctl: u32) {}
+
+pub fn show_fp_control(v: u32) -> String {
+    let rc = ["nearest", "down", "up", "toward-zero"][((v >> 13) & 3) as usize];
+    format!(
+        "{v:#06x} (rounding {rc}, flush-to-zero {}, denormals-are-zero {}, exception masks {:#04x})",
+        (v >> 15) & 1,
+        (v >> 6) & 1,
+        (v >> 7) & 0x3F
+    )
 }
 
 pub struct Arenas {
@@ -162,6 +201,7 @@ impl<T: Elem> VecCall<T> {
                 set_mask(self.mask);
             }
             let value = self.value;
+            let fp0 = fp_control();
             let allocs0 = crate::alloc_calls();
             let res = match self.r.f {
                 Func::R1(f) => mem::catch(|| Out::Scalar(f(sa))),
@@ -176,6 +216,13 @@ impl<T: Elem> VecCall<T> {
                 }),
             };
             let allocs = if res.is_ok() { crate::alloc_calls() - allocs0 } else { 0 };
+            let fp1 = fp_control();
+            let fp_env = if fp1 != fp0 {
+                set_fp_control(fp0);
+                Some((fp0, fp1))
+            } else {
+                None
+            };
             let out = match res {
                 Ok(Out::Vector(_)) => Out::Vector(std::slice::from_raw_parts(pr as *const T, lr).to_vec()),
                 Ok(o) => o,
@@ -202,6 +249,7 @@ impl<T: Elem> VecCall<T> {
                 canary,
                 input_changed,
                 allocs,
+                fp_env,
             }
         }
     }
